@@ -55,7 +55,7 @@ var scenarios = []scenario{
 	// C02: a completion for a request that is no longer the queue head (its reply raced the time-out) must not touch the head:
 	// r1 (reply at 0.8 T, its pending lookup stalled 0.5 T), r2, r3 queued; r2 must stay the only outstanding CALL until it is answered
 	{name: "c-stale-completion", ops: []scOp{{0, "send", ""}, {0.1, "send", ""}, {0.2, "send", ""}},
-		reply: map[string]float64{"r1": 0.8, "r2": 0.6, "r3": 0.1}, end: 4.0, only: []string{"state.Get>|1"}, prop: "C02", scale: 4, stall: 0.5,
+		reply: map[string]float64{"r1": 0.8, "r2": 0.6, "r3": 0.1}, end: 4.0, only: []string{"state.Get>|1"}, prop: "C02", also: []string{"C09"}, scale: 4, stall: 0.5,
 		sigs: []string{"two-outstanding", "written-twice", "write-order", "never-concluded"}},
 	// C07: a write fails, its cancel callback is slow (the ready slot is full meanwhile), the link reports disconnect then
 	// reconnect: Resume has to wait for the pump but everything returns and later requests are served
@@ -65,7 +65,7 @@ var scenarios = []scenario{
 	// C07: the connection drops while the time-out of r1 is being handled (the cancel callback is slow, so the pump has
 	// consumed the timer's expiry but not re-armed it yet): Pause must return, and after the reconnection r2 is served
 	{name: "c-pause-during-timeout", ops: []scOp{{0, "send", ""}, {1.3, "disconnect", ""}, {3.0, "connect", ""}, {3.2, "send", ""}},
-		reply: map[string]float64{"r1": -1, "r2": 0.1}, end: 5.0, only: []string{"handler.cancel|1"}, prop: "C07", scale: 4,
+		reply: map[string]float64{"r1": -1, "r2": 0.1}, end: 5.0, only: []string{"handler.cancel|1"}, prop: "C07", also: []string{"C10"}, scale: 4,
 		sigs: []string{"never-concluded"}},
 	// C07: the pump has taken the ready token and is about to dispatch r1 (its queue Peek is slow); the link flaps meanwhile, so
 	// Resume posts another ready token; the write of r1 then fails and the pump itself has to post the token of the completion:
@@ -86,7 +86,7 @@ var scenarios = []scenario{
 	// S8 (lost request): the reply to r1 and its time-out complete r1 at the same moment (the reader is slow between looking at
 	// the head of the queue and popping it): whatever happens to r1, the queued r2 and r3 must still be written and concluded
 	{name: "c-double-completion", ops: []scOp{{0, "send", ""}, {0.1, "send", ""}, {0.2, "send", ""}},
-		reply: map[string]float64{"r1": 0.97, "r2": 0.5, "r3": 0.1}, end: 5.0, only: []string{"queue.Peek>|2"}, prop: "C01", scale: 4, stall: 0.2,
+		reply: map[string]float64{"r1": 0.97, "r2": 0.5, "r3": 0.1}, end: 5.0, only: []string{"queue.Peek>|2"}, prop: "C01", also: []string{"C09"}, scale: 4, stall: 0.2,
 		sigs: []string{"never-concluded", "timeout-of-unwritten"}},
 	// S9: the pump has taken the ready token of r1's completion and is about to dispatch r2 (slow queue Peek, r2 not marked
 	// pending yet); the link flaps, so Resume posts another ready token: r2 must be written once
